@@ -129,7 +129,9 @@ func nearMisses(run *vk.Run, w *world.World, pt []byte) {
 	}
 	// passphrases are byte strings: pairs that differ only in bytes that are not valid UTF-8 (or that collapse under a
 	// lossy conversion to U+FFFD) are different passphrases, in both directions
-	for pi, pair := range [][2]string{{"caf\xe9-2019", "caf\xe8-2019"}, {"hunter2\xff", "hunter2\xfe"}, {"hunter2\xff", "hunter2\xff\xfe"},
+	long := strings.Repeat("correct horse battery staple ", 9) // 261 bytes: longer than any fixed-size passphrase buffer
+	for pi, pair := range [][2]string{{long, long[:128]}, {long, long[:129] + "X" + long[130:]}, {long, long[:255]}, {long, long[:200] + strings.ToUpper(long[200:])}, {long[:64], long[:65]}, {long[:33], long[:32]},
+		{"caf\xe9-2019", "caf\xe8-2019"}, {"hunter2\xff", "hunter2\xfe"}, {"hunter2\xff", "hunter2\xff\xfe"},
 		{"pass\x80word", "pass\uFFFDword"}, {"\xc3\x28", "\xa0\xa1"}, {"a\x00b", "a\x00c"}} {
 		for dir := 0; dir < 2; dir++ {
 			a, b := pair[dir], pair[1-dir]
